@@ -261,6 +261,8 @@ class Interp:
         """representation invariants of the crate's own value types (established by C03/C04/C19)"""
         n = t['name']
         tail = n.split('::')[-1]
+        if n.startswith(('addr::', 'structures::paging::page::Page', 'structures::paging::frame::PhysFrame', 'structures::paging::page_table::Page', 'instructions::tlb::Pcid')):
+            Interp.INVARIANTS_USED.add(n)
         if n.endswith('addr::VirtAddr'):
             return Struct(n, [BV(64, [lit(name, i) for i in range(48)] + [lit(name, 47)] * 16)])
         if n.endswith('addr::PhysAddr'):
@@ -1049,7 +1051,25 @@ class Interp:
                 # whole-symbol atoms of defined symbols can now be expanded
                 out = canon(Aff({(s2, 0, 64) if h == -1 else (s2, l, h): c for (s2, l, h), c in out.terms.items()}, out.const), depth + 1)
             return out.norm(w)
-        return canon(a) == canon(b)
+        ca, cb = canon(a), canon(b)
+        if ca == cb:
+            return True
+        # slices of one symbol cut at different places (`x - x[0..k)` against `2^k * x[k..64)`): cut both forms at every boundary
+        # either uses - x[lo..hi) = sum over the pieces [p, q) of 2^(p - lo) * x[p..q) - and compare again
+        cuts = {}
+        for f_ in (ca, cb):
+            for (sym, lo, hi), _c in f_.terms.items():
+                cuts.setdefault(sym, set()).update((lo, 64 if hi == -1 else hi))
+
+        def split(f_):
+            t = {}
+            for (sym, lo, hi), c in f_.terms.items():
+                h = 64 if hi == -1 else hi
+                pts = sorted(p for p in cuts[sym] if lo <= p <= h)
+                for p, q in zip(pts, pts[1:]):
+                    t[(sym, p, q)] = t.get((sym, p, q), 0) + (c << (p - lo))
+            return Aff(t, f_.const).norm(w)
+        return split(ca) == split(cb)
 
     def expand_aff(self, st, aff, depth=0):
         if depth > 6:
@@ -1077,6 +1097,32 @@ class Interp:
             raise Unsupported('binary op %s on %r, %r' % (op, a, b))
         a = self.norm(st, a)
         b = self.norm(st, b)
+        if op in ('Eq', 'Ne') and (a.is_const() != b.is_const()):
+            c, x = (a, b) if a.is_const() else (b, a)
+            nm = self.sym_of(x, st) if c.value() == 1 else None
+            pc = st.facts.get(('popcount-of', nm)) if nm is not None else None
+            if pc is not None:
+                bit = pred('pow2', pc)
+                return BV(1, [bit if op == 'Eq' else b_not(bit)])
+        if op in ('Lt', 'Le', 'Gt', 'Ge') and (a.is_const() != b.is_const()):
+            # `x.leading_zeros() < K` is `x >= 2^(w-K)`: a guard on the magnitude of x, refined as such
+            if a.is_const():
+                c, x, op2 = a, b, {'Lt': 'Gt', 'Le': 'Ge', 'Gt': 'Lt', 'Ge': 'Le'}[op]
+            else:
+                c, x, op2 = b, a, op
+            nm = self.sym_of(x, st)
+            lz = st.facts.get(('lz-of', nm)) if nm is not None else None
+            if lz is not None:
+                w_ = len(lz)
+                K = c.value() + (1 if op2 in ('Le', 'Gt') else 0)      # lz < K  /  lz >= K
+                less = op2 in ('Lt', 'Le')
+                xv = BV(w_, lz)
+                if K <= 0:
+                    return BV.const(1, 0 if less else 1)
+                if K > w_:
+                    return BV.const(1, 1 if less else 0)
+                bound = BV.const(w_, 1 << (w_ - K))
+                return self.compare(st, 'Ge' if less else 'Lt', self.norm(st, xv), bound)
         if op in ('Eq', 'Ne', 'Lt', 'Le', 'Gt', 'Ge'):
             return self.compare(st, op, a, b)
         if op in ('Cmp',):
@@ -1663,6 +1709,7 @@ class Interp:
     unroll_limit = 24      # iterations a loop may be executed concretely before it is summarised instead (0: always summarise)
     merge_calls = True     # the same join at the return of every inlined call
     merge_diamonds = True  # join returning paths that differ only in the value of one tested bit (see merge_diamonds below)
+    INVARIANTS_USED = set()   # value types some interpretation of this process assumed the representation invariant of
     ASM_TOUCHED = set()  # (function, location) of every inline-asm block an interpretation of this process executed
     ENTRIES = set()      # functions a rule started an interpretation at (audit: which anchors are private names)
     TOUCHED = set()      # names of every function body entered by any interpreter of this process (coverage accounting)
@@ -2184,6 +2231,12 @@ class Interp:
             msg = self.panic_message(st, target, args)
             st.events.append(('panic', msg, loc, fr.f['name']))
             return [Outcome(st, 'panic', (msg, loc))]
+        if 'constructor' in str((c.get('res') or {}).get('inst', '')):
+            # a tuple-struct / variant constructor used as a function (`opt.map(PhysAddr)`): it builds exactly that value - never an
+            # opaque call whose result could be given the type's invariant
+            if any(a_['name'] == target for a_ in self.facts.get('adts', [])):
+                return [Outcome(st, 'ret', Struct(target, list(args)))]
+            raise Unsupported('constructor %s used as a function' % target)
         ctx = CallCtx(self, st, fr, c, target, gargs, args, argtys, dest_ty, loc)
         m = self.models.get(target) or self.models.get(name)
         if m is None:
